@@ -2,7 +2,7 @@ import petl as etl, itertools, datetime as dt
 from decimal import Decimal
 from hypothesis import given, settings, strategies as st, HealthCheck
 from probe_join import cmpv
-pool=[None,True,0,1,2,1.0,2.5,Decimal(2),b'a','a','b',dt.date(2020,1,1),(1,'a'),(1,None),(2,)]
+pool=[None,True,0,1,2,1.0,2.5,Decimal(2),b'a','a','b',dt.date(2020,1,1),(1,'a'),(1,None),(2,),[1,None],([2],)]
 cell=st.sampled_from(pool)
 tbl=st.lists(st.lists(cell,min_size=0,max_size=3),max_size=7).map(lambda rs:[['a','b']]+rs)
 def val(r,i): return r[i] if i<len(r) else None
